@@ -1,4 +1,5 @@
 INIT GInit
 NEXT GNext
+CONSTANT DVariant = "faithful"
 CONSTANT Tier = "thorough"
 CHECK_DEADLOCK FALSE
